@@ -2497,6 +2497,24 @@ pub fn find_stmts(b: &Block, anchor: &str, nth: usize, until: Option<&str>) -> O
             }
             self.stack.pop();
         }
+        // the body of a match arm that is an expression (not a block) is a statement of its own: `PAT => match x { .. },`
+        fn visit_arm(&mut self, arm: &'ast syn::Arm) {
+            if self.found.is_some() {
+                return;
+            }
+            if !matches!(&*arm.body, Expr::Block(_)) && self.u.is_none() {
+                let t: String = arm.body.to_token_stream().to_string().chars().filter(|c| !c.is_whitespace()).collect();
+                if t.starts_with(&self.a) {
+                    self.left -= 1;
+                    if self.left == 0 {
+                        self.found = Some(vec![Stmt::Expr((*arm.body).clone(), None)]);
+                        self.ctx = self.stack.iter().flatten().cloned().collect();
+                        return;
+                    }
+                }
+            }
+            syn::visit::visit_arm(self, arm);
+        }
     }
     let mut v = V { a, u: until.map(norm), left: nth.max(1), found: None, stack: vec![], ctx: vec![] };
     syn::visit::Visit::visit_block(&mut v, b);
